@@ -113,7 +113,7 @@ fn main() {
             None => usage(),
         },
         Some("inproc") if a.len() >= 7 => match Prop::parse(&a[2]) {
-            Some(p) => coord::inproc_main(p, tier_of(&a[3]), a[4].parse().unwrap_or(0), a[5].parse().unwrap_or(0), a[6].parse().unwrap_or(1)),
+            Some(p) => coord::inproc_main(p, tier_of(&a[3]), a[4].parse().unwrap_or(0), a[5].parse().unwrap_or(0), a[6].parse().unwrap_or(1), a.get(7).map(|s| s == "lean").unwrap_or(false)),
             None => usage(),
         },
         Some("replay") if a.len() >= 3 => coord::replay_main(&a[2]),
